@@ -122,7 +122,11 @@ AsciiSlices(b) ==
 
 (* value a valid write frame would store in cell <<u, blk, a>>, or -1 *)
 WritesCell(f, u, blk, a, v) ==
-  LET r == ParseReq(f.pdu) IN
+  LET r0 == ParseReq(f.pdu)
+      (* bytes after the announced byte count are not part of the request (a corrupted MBAP length can make a frame swallow *)
+      (* what follows it); the write it prescribes is the one of its well-formed prefix                                      *)
+      r == IF r0.k \in {"wn", "rw"} /\ Len(r0.data) > r0.bc THEN [r0 EXCEPT !.data = Take(r0.data, r0.bc)] ELSE r0
+  IN
   /\ Judged(r) /\ r.k \in {"w1", "wn", "rw", "mask"}
   /\ Target(Cfg, f.uid) \in {"only", "unit", "broadcast"}
   /\ (Target(Cfg, f.uid) = "broadcast" \/ Key(Cfg, f.uid) = u)
